@@ -22,7 +22,7 @@ def subject_kind(expr):
                    (r'^\[|^\(.*,.*\)$|^\(\)$', 'list-tuple'), (r"^b'|^bytearray|^'|^M\.StrSub|^memoryview", 'str-bytes'),
                    (r'^M\.(Map|MapGetLog|MapGetRaise|RegMap)\(', 'mapping-abc'),
                    (r'^\{.*:|^\{\}$|^M\.DictSub|^types\.Mapping|^collections\.OrderedDict', 'dict'),
-                   (r'^M\.(Point|P3|DC)\(', 'class-instance'), (r'^M\.(LA|LARaise)\(', 'logging-attrs'),
+                   (r'^M\.(Point|P3|DC|One|DC1|Zero)\(', 'class-instance'), (r'^M\.(LA|LARaise)\(', 'logging-attrs'),
                    (r'^M\.(BadArgs|DupArgs|NoArgs|StrArgs)', 'bad-match-args'), (r'^M\.Eq', 'hostile-eq'),
                    (r'^M\.Color', 'enum')):
         if re.search(pat, expr):
@@ -61,6 +61,10 @@ def classify(fn, case, exp, got):
     if eo != go:
         if 'ValueError' in (norm(eo), norm(go)) and 'duplicate-mapping-keys' in feats:
             return 'duplicate-mapping-keys:ValueError-raised-at-different-point:%s->%s' % (norm(eo), norm(go))
+        if norm(eo) == 'TypeError' and norm(go) == 'no-error' and 'invalid-class-pattern' in feats and not raising:
+            # the run-time validation of the class pattern (duplicate attribute / too many positionals / bad
+            # __match_args__) that CPython performs did not happen at all: the opposite of the eager-validation finding
+            return 'invalid-class-pattern:TypeError-not-raised:compiled-%s' % ('selects-case' if go.startswith('case') else 'no-match')
         if 'TypeError' in (norm(eo), norm(go)) and 'invalid-class-pattern' in feats:
             return 'invalid-class-pattern:TypeError-raised-at-different-point:%s->%s' % (norm(eo), norm(go))
         if raising:
@@ -168,7 +172,10 @@ def main(ck):
                 if e in seen:
                     continue
                 seen.add(e)
-                cases.append({'f': fname, 'a': '(%s,)' % e, 't': '/'.join(fn['kinds'])[:60]})
+                tag = '/'.join(fn['kinds'])[:60]
+                if fn.get('boundary_cell'):
+                    tag = 'B:%s;%s' % (fn['boundary_cell'], tag)
+                cases.append({'f': fname, 'a': '(%s,)' % e, 't': tag})
                 sk = subject_kind(e)
                 for k in fn['kinds']:
                     matrix[(k, sk)] = matrix.get((k, sk), 0) + 1
@@ -186,6 +193,7 @@ def main(ck):
     total_n = total_distinct = 0
     samples = []
     hist = {}
+    bcells = {}
     for (mname, inf, cases), res in zip(jobs, results):
         total_n += res.n
         total_distinct += res.distinct
@@ -193,6 +201,10 @@ def main(ck):
         for k, v in res.hist.items():
             oc = k.split('|')[1]
             hist[oc] = hist.get(oc, 0) + v
+            if k.startswith('B:'):
+                cell = k[2:].split(';')[0]
+                bcells.setdefault(cell, {})
+                bcells[cell][oc] = bcells[cell].get(oc, 0) + v
         for m in res.mismatches:
             fn = fmap[m['case']['f']][1]
             key = classify(fn, m['case'], m['exp'], m['got'])
@@ -227,7 +239,8 @@ def main(ck):
         samples,
         extra={'functions': len(funcs), 'rejected_by_cpython_at_compile_time': rejected, 'modules': len(mods),
                'helpers_reached': helpers, 'matrix_cells': len(matrix), 'matrix_min': min(matrix.values()) if matrix else 0,
-               'matrix': {'%s|%s' % k: v for k, v in sorted(matrix.items())}, 'outcome_hist': hist},
+               'matrix': {'%s|%s' % k: v for k, v in sorted(matrix.items())}, 'outcome_hist': hist,
+               'boundary_class_pattern_cells': {k: bcells[k] for k in sorted(bcells)}},
         assumptions=['CPython 3.12.1 executing the identical source is the reference',
                      'patterns CPython rejects at compile time are discarded by the generator',
                      'only the selected case id and the names bound by the selected case are compared, not leftovers of failed cases'])
